@@ -62,7 +62,6 @@ PASS_THOROUGH = [
      "qualifiers x all values, chain of 4"),
     ("ClassModelImplMethQFixedBig.cfg", "repaired design: method/parameter "
      "qualifiers, both paths"),
-    ("ClassModelImplPropFlBig.cfg", "flavors on the use, chain of 4 (MOF)"),
     ("ClassModelImplMethFlBig.cfg", "flavors on the use of method and "
      "parameter qualifiers"),
 ]
